@@ -544,10 +544,17 @@ func c09FixedList() []c09Fixed {
 	}
 	// jump operands at and around the 16-bit limit (the accepted ones), taken and not taken
 	for _, src := range c10Fixed() {
+		src := src
 		if len(src) > 100000 {
-			src := src
 			l = append(l, c09Fixed{"jump_distance_at_the_limit", "in", func() string { return src }})
+		} else {
+			l = append(l, c09Fixed{"compiler_boundary_programs", "in", func() string { return src }})
 		}
+	}
+	// programs at the run-time limits (16 nested blocks, 1021..1024 live variables) doing each kind of thing there
+	for _, lc := range limitEventCases() {
+		lc := lc
+		l = append(l, c09Fixed{"programs_at_the_runtime_limits", "in", func() string { return lc.src }})
 	}
 	l = append(l, c09Fixed{"many_constants", "in", func() string {
 		var b strings.Builder
